@@ -314,6 +314,9 @@ def loop_exit_controls(an, header):
         for t in an.succs[b]:
             if t in body or an.blocks[t]["term"]["k"] == "unreachable":
                 continue
+            tt = an.blocks[t]["term"]
+            if tt["k"] == "call" and tt.get("target") is None:
+                continue      # the failure arm of an assertion: diverges, no answer is produced there (C01 decides whether it can be reached)
             cur, nxt, ok = b, t, True
             while an.blocks[cur]["term"]["k"] != "switch":
                 ps = [p for p in an.preds[cur] if p in body and (p, cur) not in an.back_edges]
